@@ -75,6 +75,17 @@ CHECKS = {
              "reactions are mixed in. Tie: four modes on generated lists vs the model and vs an O(n^2) pairwise oracle.",
         design="4/C15", technique="Lean 4 proof (accumulator invariant `Covers`) + differential check vs pairwise oracle",
         note="Default mode with untyped (UNKNOWN) reactions is a known finding (F14): the theorem's IsEquiv hypothesis excludes it."),
+    "C17": dict(
+        text="Theorems order_independent (the species order is the same for every permutation of the species collection: "
+             "set iteration order / hash seed cannot show), order_idempotent, noninterference (for a network that states its "
+             "element lists the result of an entry point does not depend on the global parser state left by other networks), "
+             "leak_example (networks without lists do read it - outside the quantifier). Tie (runtime, observed): sha256 of the "
+             "rendered trees across fresh processes with different PYTHONHASHSEED, repeated renderings, interleavings with "
+             "building/querying/rendering/editing other networks, two `naunet render` runs in one process; the model's sort "
+             "reproduces the implementation's species order on shuffled inputs.",
+        design="4/C17", technique="Lean 4 proof (sorting + permutation, prologue non-interference) + cross-process hash comparison",
+        note="Partial by nature: process-level effects (hash seed, module-level state) are only observed on the generated "
+             "descriptions; the theorems cover the ordering logic and the prologue pattern, not every module-level variable."),
 }
 
 NOT_YET = {}
